@@ -109,7 +109,35 @@ func c14ValidFragments(r *rand.Rand, base *model.Schema, tag string, n int) []st
 			out = append(out, fmt.Sprintf("directive @newd%s(a: Int = 1) on OBJECT\ntype NewD%s @newd%s { a: Int }", id, id, id))
 		default:
 			if len(ifaces) > 0 && r.Intn(2) == 0 {
-				out = append(out, fmt.Sprintf("extend interface %s { x%s: Int }", ifaces[r.Intn(len(ifaces))], id)) // breaks implementers: see Expect
+				// an object starts implementing an interface in an extension that brings the interface's fields along
+				it := base.Type(ifaces[r.Intn(len(ifaces))])
+				var cand *model.TypeDef
+				for _, t := range base.Types {
+					if t.Kind == model.Object && !base.Implements(t.Name, it.Name) {
+						clash := false
+						for _, f := range it.Fields {
+							if t.Field(f.Name) != nil {
+								clash = true
+							}
+						}
+						if !clash {
+							cand = t
+						}
+					}
+				}
+				if cand != nil {
+					var fs []string
+					for _, f := range it.Fields {
+						cp := *f
+						cp.Dirs, cp.Desc = nil, ""
+						fs = append(fs, model.FieldSDL(&cp, model.SDLOpts{}))
+					}
+					out = append(out, fmt.Sprintf("extend type %s implements %s {\n  %s\n}", cand.Name, it.Name, strings.Join(fs, "\n  ")))
+				} else {
+					out = append(out, fmt.Sprintf("extend interface %s { x%s: Int }", it.Name, id)) // breaks implementers: the load fails as a whole
+				}
+			} else if len(ifaces) > 0 && r.Intn(3) == 0 {
+				out = append(out, fmt.Sprintf("extend interface %s { x%s: Int }", ifaces[r.Intn(len(ifaces))], id))
 			} else {
 				out = append(out, fmt.Sprintf("type NewU%s { u: Int }\nunion NewUn%s = NewU%s", id, id, id))
 			}
@@ -196,6 +224,7 @@ func runC14(c *run.Ctx) {
 			continue
 		}
 		var hist []string
+		var good []string
 		nontriv := false
 		bad := false
 		steps := 3 + r.Intn(6)
@@ -267,6 +296,7 @@ func runC14(c *run.Ctx) {
 					break
 				}
 				c.Count("successful_loads", 1)
+				good = append(good, load.Text)
 			} else {
 				c.Count("failing_loads", 1)
 				after, oerr := observe(root)
@@ -291,6 +321,27 @@ func runC14(c *run.Ctx) {
 				break
 			}
 			c.Count("observation_vectors_compared", 2)
+		}
+		// a root that receives the successful loads only and was never observed in between (no lazily cached answers)
+		if !bad {
+			fresh, ferr := loadSDL(sdl)
+			for _, gtext := range good {
+				if ferr == nil {
+					run.Protect(func() { ferr = fresh.ParseString(gtext) })
+				}
+			}
+			if ferr != nil {
+				c.Violation("c14-replay-diverges", map[string]interface{}{"base_sdl": sdl, "history": hist, "diag": "replaying only the successful loads on a fresh root fails: " + ferr.Error()})
+				bad = true
+			} else {
+				a, _ := observe(root)
+				b, _ := observe(fresh)
+				if d := vecDiff(a, b); d != "" {
+					c.Violation("c14-differs-from-fresh-replay", map[string]interface{}{"base_sdl": sdl, "history": hist, "diag": d})
+					bad = true
+				}
+				c.Count("fresh_replays_compared", 1)
+			}
 		}
 		// AddTypes failure
 		if !bad && i%3 == 0 {
